@@ -191,8 +191,8 @@ def sample(case):
     return case
 
 
-THEOREM_FILES = ['P_C13', 'P_C13_ast']      # P_C13_ast: the header's helpers are DEFINED (no undefined shift) for all positions
-THEOREM_NEEDS = {'P_C13_ast': ['Equiv_cdef']}
+THEOREM_FILES = ['P_C13', 'P_C13_ast', 'P_C13_zmat']      # P_C13_ast: the header's helpers are DEFINED (no undefined shift) for all positions
+THEOREM_NEEDS = {'P_C13_ast': ['Equiv_cdef'], 'P_C13_zmat': ['Equiv_zmat_c']}
 RULE = ('boundary shapes: empty / full shells, one orbital, 9-10-11 beta states (10-state block), 91/105/126 alpha strings '
         '(block 100), row lengths 435/462/465/924 (450 batch), orbital counts 30-33 and 62-64 with one or two electrons; '
         'extents and fill counts of all wrapper-allocated tables vs the counting formulas; every kernel family through the '
